@@ -81,6 +81,22 @@ fn conversions(ctx: &mut Ctx, s: &str) {
     conv_res!(ctx, "IriBuf::try_from(IriRefBuf)", t, iri_ok, IriBuf::try_from(irb.clone()));
     conv_res!(ctx, "UriBuf::try_from(IriRefBuf)", t, uri_ok, UriBuf::try_from(irb.clone()));
     conv_res!(ctx, "UriRefBuf::try_from(IriRefBuf)", t, uri_ref_ok, UriRefBuf::try_from(irb.clone()));
+    // ---- the owned conversions again from buffers with spare capacity (clone() would drop it: build afresh)
+    {
+        let spare_s = || { let mut b = String::with_capacity(s.len() + 97); b.push_str(s); b };
+        let spare_v = || { let mut b = Vec::with_capacity(s.len() + 97); b.extend_from_slice(t); b };
+        if let Ok(x) = IriRefBuf::new(spare_s()) { conv_res!(ctx, "IriRefBuf::try_into_iri (spare capacity)", t, iri_ok, x.try_into_iri()); }
+        if let Ok(x) = IriRefBuf::new(spare_s()) { conv_res!(ctx, "IriRefBuf::try_into_uri (spare capacity)", t, uri_ok, x.try_into_uri()); }
+        if let Ok(x) = IriRefBuf::new(spare_s()) { conv_res!(ctx, "IriRefBuf::try_into_uri_ref (spare capacity)", t, uri_ref_ok, x.try_into_uri_ref()); }
+        if let Ok(x) = IriBuf::new(spare_s()) { conv_res!(ctx, "IriBuf::try_into_uri (spare capacity)", t, uri_ok, x.try_into_uri()); }
+        if let Ok(x) = IriBuf::new(spare_s()) { conv_opt!(ctx, "IriBuf::into_iri_ref (spare capacity)", t, true, Some(x.into_iri_ref())); }
+        if let Ok(x) = UriRefBuf::new(spare_v()) { conv_res!(ctx, "UriRefBuf::try_into_uri (spare capacity)", t, uri_ok, x.try_into_uri()); }
+        if let Ok(x) = UriRefBuf::new(spare_v()) { conv_res!(ctx, "UriRefBuf::try_into_iri (spare capacity)", t, uri_ok, x.try_into_iri()); }
+        if let Ok(x) = UriRefBuf::new(spare_v()) { conv_opt!(ctx, "UriRefBuf::into_iri_ref (spare capacity)", t, true, Some(x.into_iri_ref())); }
+        if let Ok(x) = UriBuf::new(spare_v()) { conv_opt!(ctx, "UriBuf::into_iri (spare capacity)", t, true, Some(x.into_iri())); }
+        if let Ok(x) = UriBuf::new(spare_v()) { conv_opt!(ctx, "UriBuf::into_iri_ref (spare capacity)", t, true, Some(x.into_iri_ref())); }
+        if let Ok(x) = UriBuf::new(spare_v()) { conv_opt!(ctx, "UriBuf::into_uri_ref (spare capacity)", t, true, Some(x.into_uri_ref())); }
+    }
     // ---- from Iri / IriBuf
     if let Ok(i) = Iri::new(s) {
         conv_opt!(ctx, "Iri::as_iri_ref", t, true, Some(i.as_iri_ref()));
